@@ -76,12 +76,15 @@ int main(int argc, char **argv)
     int i, rep; size_t k;
     int host = host_max_backend();
     parse_opts(argc, argv);
+    crash_guard_install();
     compiled_max = g_opts.maxbe; compiled_128 = !(g_opts.sub && !strcmp(g_opts.sub, "no128"));
     for (rep = 0; rep < 3; ++rep) for (k = 0; k < sizeof(PATS) / sizeof(PATS[0]); ++k) for (i = 0; i < 6; ++i) {
         size_t ps; int ret, be; char cd[100], env[200];
         g_paint = (int)(PATS[k] & 0xFF);
         arena_reset();
+        { int cv[2]; cv[0] = i; cv[1] = (int)k; crash_case("C13", "c13a", 2, cv, NULL, 0); }   /* an init that dies (a function table of a back end that is not compiled in, say) is this case's outcome */
         be = do_init(i, PATS[k], &ps, &ret);
+        crash_case_done();
         snprintf(cd, sizeof(cd), "c13a %d %zu", i, k);
         snprintf(env, sizeof(env), "real CPU: sse2=%d avx2=%d per the compiler's detection; caller registers and stack = 0x%llx", host >= 1, host >= 2, (unsigned long long)PATS[k]);
         judge(i, be, ps, ret, expected_be(i, host >= 1, host >= 2), env, cd);
@@ -94,7 +97,9 @@ int main(int argc, char **argv)
         g_paint = 0xA5;
         arena_reset();
         g_fail_at = g_alloc_calls + (int)k;
+        { int cv[2]; cv[0] = i; cv[1] = (int)k; crash_case("C13", "c13f", 2, cv, NULL, 0); }
         be = do_init(i, 0x5555555555555555ULL, &ps, &ret);
+        crash_case_done();
         g_fail_at = 0;
         if (!ret) continue;
         snprintf(cd, sizeof(cd), "c13f %d %zu", i, k);
@@ -152,6 +157,7 @@ int main(int argc, char **argv)
     int host = host_max_backend(), i, skipped = 0;
     unsigned a, b, c, d, e, f, g, h, k; unsigned long states = 0;
     parse_opts(argc, argv);
+    crash_guard_install();
     compiled_max = g_opts.maxbe; compiled_128 = !(g_opts.sub && !strcmp(g_opts.sub, "no128"));
     for (a = 0; a < 8; ++a) for (b = 0; b < 2; ++b) for (c = 0; c < 2; ++c) for (d = 0; d < 2; ++d) for (e = 0; e < 2; ++e)
     for (f = 0; f < 4; ++f) for (g = 0; g < 2; ++g) for (h = 0; h < 2; ++h) for (k = 0; k < 2; ++k) {
@@ -173,7 +179,9 @@ int main(int argc, char **argv)
                 arena_reset();
                 g_paint = rep ? 0xFF : 0;
                 M.queries = 0;
+                { int cv[6]; cv[0] = (int)(a * 16 + b * 8 + c * 4 + d * 2 + e); cv[1] = (int)f; cv[2] = (int)(g * 4 + h * 2 + k); cv[3] = i; cv[4] = rep; crash_case("C13", "c13b-packed", 5, cv, NULL, 0); }
                 be = do_init(i, rep ? 0xFFFFFFFFFFFFFFFFULL : 7, &ps, &ret);
+                crash_case_done();
                 snprintf(cd, sizeof(cd), "c13b %u %u %u %u %u %u %u %u %u %d", a, b, c, d, e, f, g, h, k, i);
                 judge(i, be, ps, ret, want, env, cd);
                 if (be > host && be <= 2) engine_error("model run selected a back end the host cannot execute");
